@@ -10,6 +10,7 @@ package hproxy
 
 import (
 	"context"
+	"encoding/json"
 	"errors"
 	"fmt"
 	"io"
@@ -17,6 +18,7 @@ import (
 	"strings"
 	"sync"
 	"testing"
+	"time"
 
 	"github.com/ozontech/seq-db/consts"
 	"github.com/ozontech/seq-db/disk"
@@ -383,24 +385,21 @@ func trunc(s string, n int) string {
 	return s
 }
 
-func TestVerifC16(t *testing.T) {
-	r := vlib.NewRun("C16")
-	var rc c16Case
-	if r.LoadReplay(&rc) {
-		vdec.Run(rc.Assign, func() { c16Last = c16Run(rc.Topo) })
-		c16Check(r, rc.Topo, rc.Assign)
-		r.Finish(t, "fault_enumeration", "replay", nil, nil)
-		return
-	}
+type c16Plan struct {
+	tp    rtopo
+	bound int
+}
+
+type c16Job struct {
+	Idx int `json:"idx"`
+}
+
+func c16Plans(thorough bool) ([]c16Plan, int) {
 	bigBound := 3
-	if r.Thorough() {
+	if thorough {
 		bigBound = 4
 	}
-	type plan struct {
-		tp    rtopo
-		bound int
-	}
-	var plans []plan
+	var plans []c16Plan
 	for hs := 1; hs <= 3; hs++ {
 		for hr := 1; hr <= 3; hr++ {
 			for _, cold := range [][2]int{{0, 0}, {1, 1}, {1, 2}, {2, 1}, {2, 2}} {
@@ -410,26 +409,66 @@ func TestVerifC16(t *testing.T) {
 					if hs*hr <= 2 && cold[0]*cold[1] <= 1 && os[1] == 3 && os[0] == 0 {
 						b = -1
 					}
-					plans = append(plans, plan{tp, b})
+					plans = append(plans, c16Plan{tp, b})
 				}
 			}
 		}
 	}
-	for _, p := range plans {
-		if r.Expired() {
-			break
-		}
-		tp := p.tp
-		st := vdec.Explore(p.bound, 2_000_000, func() { c16Last = c16Run(tp) }, func(assign map[string]int) bool {
-			c16Check(r, tp, assign)
-			return !r.Expired()
-		})
-		r.Note("%s bound=%d executions=%d events=%d capped=%v", tp, p.bound, st.Execs, st.MaxAsked, st.Capped)
-		if st.Capped {
-			r.Cap(fmt.Sprintf("%s stopped at %d executions", tp, st.Execs))
-		}
-		r.Add("topologies", 1)
+	return plans, bigBound
+}
+
+// c16Handle explores one plan inside a worker subprocess.
+func c16Handle(job json.RawMessage) any {
+	var j c16Job
+	if err := json.Unmarshal(job, &j); err != nil {
+		panic(err)
 	}
+	r := vlib.NewSubRun("C16")
+	plans, _ := c16Plans(r.Thorough())
+	p := plans[j.Idx]
+	tp := p.tp
+	st := vdec.Explore(p.bound, 2_000_000, func() { c16Last = c16Run(tp) }, func(assign map[string]int) bool {
+		c16Check(r, tp, assign)
+		return !r.Expired()
+	})
+	r.Note("%s bound=%d executions=%d events=%d capped=%v", tp, p.bound, st.Execs, st.MaxAsked, st.Capped)
+	if st.Capped {
+		r.Cap(fmt.Sprintf("%s stopped at %d executions", tp, st.Execs))
+	}
+	r.Add("topologies", 1)
+	return r.Export()
+}
+
+func TestVerifC16(t *testing.T) {
+	r := vlib.NewRun("C16")
+	var rc c16Case
+	if r.LoadReplay(&rc) {
+		vdec.Run(rc.Assign, func() { c16Last = c16Run(rc.Topo) })
+		c16Check(r, rc.Topo, rc.Assign)
+		r.Finish(t, "fault_enumeration", "replay", nil, nil)
+		return
+	}
+	plans, bigBound := c16Plans(r.Thorough())
+	// the explorer's state is process-global: the plans are sharded over worker subprocesses
+	pool := vlib.NewPool("c16", vlib.Workers())
+	defer pool.Close()
+	vlib.Parallel(len(plans), vlib.Workers(), func(i int) {
+		if r.Expired() {
+			return
+		}
+		var exp vlib.Export
+		jr, err := pool.Do(c16Job{Idx: i}, &exp, 40*time.Minute)
+		switch {
+		case err != nil:
+			panic(err)
+		case jr.Died:
+			r.Violation(fmt.Sprintf("proxy search process died %s", plans[i].tp), c16Case{Topo: plans[i].tp}, jr.Stderr)
+		case jr.Hung:
+			r.Cap(fmt.Sprintf("%s did not finish within the horizon", plans[i].tp))
+		default:
+			r.Merge(exp)
+		}
+	})
 	r.Sample(c16Case{rtopo{2, 2, 1, 1, 0, 3, false}, map[string]int{"search/hot-s0-r0/#1": 1, "fetch/hot-s1-r0/#1": 4}})
 	ev := r.Get("evaluations")
 	r.Finish(t, "fault_enumeration",
